@@ -24,7 +24,7 @@ pub fn parse_initializer(input: &[LexToken]) -> ParseResult<'_, Option<Initializ
             LexToken(Token::Equals, _),
             LexToken(Token::Id(id), _),
             input @ ..,
-        ] if id.0 == "StaticSampler" => {
+        ] if id.0 == "StaticSampler" && matches!(input.first(), Some(LexToken(Token::LeftBrace, _))) => {
             let (input, properties) = pipelines::parse_static_sampler_properties(input)?;
             Ok((input, Some(Initializer::StaticSampler(properties))))
         }
